@@ -145,7 +145,7 @@ def gen_cases(rng, tier):
     cases = []
     # 1. the sweep
     progs = []
-    reps = 6 if thorough else 4
+    reps = 6 if thorough else 3
     for cn in D.CLASS_NAMES:
         names = sorted(S.api_of(cn)) + ['<ctor>', '<pickle>', '<deepcopy>']
         for name in names:
@@ -155,6 +155,9 @@ def gen_cases(rng, tier):
                 else:
                     depth = rng.choice([1, 1, 2, 3, 4])
                 progs.append((cn, name, S.gen_program(rng, cn, name, depth)))
+    # every in-place operator of every class x operand units {None, unitless, dimensionless ratios, ordinary}
+    for cn, name, u, prog in S.gen_inplace_units(rng, 2 if thorough else 1):
+        progs.append((cn, name + ':units=' + u, prog))
     outs = _pmap(_run_gen, [p for _, _, p in progs])
     for n, ((cn, name, prog), out) in enumerate(zip(progs, outs)):
         dumps = [d for d, _, _, _ in out]
